@@ -6,7 +6,13 @@ spec/ConnCtrl.tla models every mutex-protected read / insert of the ConnectContr
  * RP: every transition of the as-coded model at harness granularity (Check / Save / HandshakeFail / Close) is forced,
        as part of a schedule from the initial state, on the real ConnectController (real AcceptConnect / Connect
        goroutines, real handshake code on both ends, gating net.Conn / Dialer); after every step the real counts are read.
- * Oracle: a REAL count above its limit.  An overshoot that exists only in the model is never a verdict.
+ * Address forms: the textual form of the remote addresses (IPv4 "a.b.c.d:port", IPv6 "[h]:port" loopback / global /
+       zoned, hosts and ports that are textual prefixes of each other, both families mixed) is a model dimension (variable
+       plan of ConnCtrl.tla, one initial state per address plan); the universe ConnsF (three concurrent attempts from one
+       IP on three ports + one from a second IP) is model-checked and replayed over every non-IPv4 plan: the harness
+       net.Conn objects / dial addresses carry exactly the texts the model computed.
+ * Oracle: a REAL count above its limit (the controller's counters, the recorded addresses split with net.SplitHostPort
+       and the harness's own count of live connections per IP).  An overshoot that exists only in the model is never a verdict.
 """
 import os
 import _connctrl as cc
@@ -22,27 +28,52 @@ def run(ctx):
              or os.environ.get("VERIF_C36_FIXED") == "1")
     as_coded = not fixed   # named deviation switch CheckThenAct: on while the code inserts without re-testing the limits
     # (universe, (MaxIn, MaxPerIp, MaxOut), also model-check the fine-grained design / as-coded variants)
-    configs = [("ConnsQ", (2, 1, 1), True), ("ConnsQ2", (2, 1, 1), False), ("ConnsQ3", (2, 2, 1), False)]
+    # + the address plans the run ranges over (ConnCtrl_MC.tla Plans*)
+    configs = [("ConnsQ", (2, 1, 1), True, "PlansBase"), ("ConnsQ2", (2, 1, 1), False, "PlansBase"),
+               ("ConnsQ3", (2, 2, 1), False, "PlansBase"), ("ConnsF", (3, 2, 1), False, "PlansForms")]
     if ctx.thorough:
-        configs += [("ConnsQ", (2, 2, 1), False), ("ConnsT", (2, 1, 1), True), ("ConnsT2", (3, 2, 1), False)]
-    seen_names, seen_results = set(), set()
-    binary = ctx.go_test_bin("p2pserver/connect_controller", harness="b_p2p_connctrl", hide_own_tests=True)
-    stats = {"steps": 0, "overshoots": {}, "fatal_logs": 0}
-    npaths = nedges = 0
-    model_notes = []
-    for (conns, lim, full) in configs:
-        tag = "%s-%d%d%d" % (conns, lim[0], lim[1], lim[2])
+        configs += [("ConnsQ", (2, 2, 1), False, "PlansBase"), ("ConnsT", (2, 1, 1), True, "PlansBase"),
+                    ("ConnsT2", (3, 2, 1), False, "PlansBase"), ("ConnsF", (2, 1, 1), True, "PlansAll"),
+                    ("ConnsF2", (3, 2, 1), False, "PlansForms"), ("ConnsQ2", (2, 1, 1), False, "PlansV6")]
+    seen_names, seen_results, seen_plans = set(), set(), set()
+
+    def parts(conns, lim, full, plans):
+        tag = "%s-%d%d%d" % (conns, lim[0], lim[1], lim[2]) + ("" if plans == "PlansBase" else "-" + plans)
         # two dials to one address can both be established in the fine-grained models (stale hasBoundAddr), so the
         # bookkeeping invariant is claimed for the fine-grained runs only where remote addresses are pairwise distinct
-        book = (["Book"] if conns == "ConnsQ" else []) + ["LiveCounted"]
+        book = (["Book"] if conns in ("ConnsQ", "ConnsF") else []) + ["LiveCounted"]
+        return tag, book
+
+    # all TLC runs are started ahead (they overlap with the go build and with the replays of the earlier configurations)
+    pf = cc.Prefetch(ctx, 4)
+    for (conns, lim, full, plans) in configs:
+        tag, book = parts(conns, lim, full, plans)
+        # the ghost snapshots multiply the graph; the quick run over the address forms stays at plain state identity
+        # (the thorough tier refines the small universe ConnsF only)
+        snap = False if (plans != "PlansBase" and not (ctx.thorough and conns == "ConnsF")) else None
+        # -- MC 3 + edge export at the granularity the harness can force
+        inv = ["TypeOK", "Book", "LiveCounted"] + ([] if as_coded else ["Limits"])
+        pf.submit(tag + "-replay", conns, lim, as_coded, False, inv, True, snap=snap, plans=plans)
         if full:
             # -- MC 1: intended design, every critical section its own step: Limits must be an invariant
-            r = cc.tlc(ctx, tag + "-design", conns, lim, False, True, ["TypeOK", "Limits"] + book, False)
-            if r.status != "ok":
-                ctx.infra("design model (Save re-tests the limits) does not satisfy its invariants: %s %s" % (r.violated, r.errors[:2]))
+            pf.submit(tag + "-design", conns, lim, False, True, ["TypeOK", "Limits"] + book, False, plans=plans)
             # -- MC 2: the code as it is, fine-grained: candidate counterexample (never a verdict by itself); in the quick
             #    tier it is skipped once the deviation is fixed (the design model above is then the model of the code)
-            r = None if (fixed and not ctx.thorough) else cc.tlc(ctx, tag + "-coded-fine", conns, lim, True, True, ["TypeOK", "Limits"] + book, False, workers=1)
+            if not (fixed and not ctx.thorough):
+                pf.submit(tag + "-coded-fine", conns, lim, True, True, ["TypeOK", "Limits"] + book, False, workers=1, plans=plans)
+            if ctx.thorough and conns == "ConnsQ":
+                pf.submit(tag + "-coded-fine-full", conns, lim, True, True, ["TypeOK"] + book, False, plans=plans)
+    binary = ctx.go_test_bin("p2pserver/connect_controller", harness="b_p2p_connctrl", hide_own_tests=True)
+    stats = {"steps": 0, "overshoots": {}, "fatal_logs": 0, "paths_by_plan": {}}
+    npaths = nedges = 0
+    model_notes = []
+    for (conns, lim, full, plans) in configs:
+        tag, book = parts(conns, lim, full, plans)
+        if full:
+            r = pf.get(tag + "-design")
+            if r.status != "ok":
+                ctx.infra("design model (Save re-tests the limits) does not satisfy its invariants: %s %s" % (r.violated, r.errors[:2]))
+            r = None if (fixed and not ctx.thorough) else pf.get(tag + "-coded-fine")
             if r is None:
                 pass
             elif r.status == "violation" and r.violated == "Limits":
@@ -52,12 +83,10 @@ def run(ctx):
             else:
                 ctx.infra("as-coded fine-grained model: %s %s" % (r.status, r.errors[:2]))
             if ctx.thorough and conns == "ConnsQ":
-                r = cc.tlc(ctx, tag + "-coded-fine-full", conns, lim, True, True, ["TypeOK"] + book, False)
+                r = pf.get(tag + "-coded-fine-full")
                 if r.status != "ok":
                     ctx.infra("as-coded fine-grained model (full exploration): %s %s" % (r.status, r.errors[:2]))
-        # -- MC 3 + edge export at the granularity the harness can force
-        inv = ["TypeOK", "Book", "LiveCounted"] + ([] if as_coded else ["Limits"])
-        r = cc.tlc(ctx, tag + "-replay", conns, lim, as_coded, False, inv, True)
+        r = pf.get(tag + "-replay")
         if r.status != "ok":
             ctx.infra("replay model: %s %s %s" % (r.status, r.violated, r.errors[:2]))
             continue
@@ -65,6 +94,16 @@ def run(ctx):
         for e in edges:
             e["from"], e["to"] = cc.norm_state(e["from"]), cc.norm_state(e["to"])
         inits = [cc.norm_state(s) for s in inits]
+        tabs = cc.plan_tables(r.prints.get("NOTE", []), cc.UNIVERSE[conns])
+        if sorted(tabs) != sorted(cc.PLANSETS[plans]) or sorted(s["plan"] for s in inits) != sorted(cc.PLANSETS[plans]):
+            ctx.infra("replay model %s: initial states / address tables for plans %s, expected %s" % (tag, sorted(tabs), cc.PLANSETS[plans]))
+            continue
+        seen_plans |= set(tabs)
+        if not as_coded:
+            # vacuity per address form: the in-lock re-test must have something to refuse under every plan
+            for pl in tabs:
+                if not any(e["act"]["res"] == "rej-limit" and e["from"]["plan"] == pl for e in edges):
+                    ctx.infra("vacuous: %s has no Save refused by the in-lock re-test under address plan %s" % (tag, pl))
         seen_names |= {e["act"]["name"] for e in edges}
         seen_results |= {e["act"]["res"] for e in edges}
         if not binary:
@@ -77,10 +116,10 @@ def run(ctx):
         allpaths = sorted(wit.values(), key=lambda w: len(w["steps"])) + paths
         ctx.log("%s: %d edges, %d schedules (%d steps), model overshoot kinds reachable: %s" % (
             tag, len(edges), len(allpaths), sum(len(p["steps"]) for p in allpaths), sorted(wit)))
-        obs = cc.replay(ctx, binary, cc.UNIVERSE[conns], lim, allpaths, tag)
+        obs = cc.replay(ctx, binary, cc.UNIVERSE[conns], lim, allpaths, tag, tabs)
         if obs is None:
             continue
-        cc.judge(ctx, allpaths, obs, lim, cc.UNIVERSE[conns], stats)
+        cc.judge(ctx, allpaths, obs, lim, cc.UNIVERSE[conns], stats, tabs)
         npaths += len(allpaths)
         nedges += len(edges)
         if as_coded:
@@ -94,6 +133,7 @@ def run(ctx):
         if len(ctx.samples) < 3 and allpaths:
             ctx.samples.append({"config": tag, "schedule": cc.sched_text(allpaths[0], len(allpaths[0]["steps"]))})
     missing = [a for a in ACTIONS if a not in seen_names] + [x for x in RESULTS if x not in seen_results]
+    missing += ["plan " + p for p in cc.PLANSETS["PlansAll"] if binary and stats["paths_by_plan"].get(p, 0) == 0]
     if missing:
         ctx.infra("vacuous model runs: never taken: %s" % missing)
     ctx.log("replayed %d steps; real overshoots by key: %s" % (stats["steps"], stats["overshoots"]))
@@ -102,12 +142,15 @@ def run(ctx):
         "traces_validated_against_impl": npaths,
         "replayed_steps": stats["steps"], "replay_edges": nedges,
         "real_overshoot_observations": stats["overshoots"],
+        "schedules_by_address_plan": stats["paths_by_plan"],
         "model_notes": model_notes,
         "deviation_switch": {"CheckThenAct": as_coded},
-        "constants": [{"conns": cc.UNIVERSE[c], "maxIn": l[0], "maxPerIp": l[1], "maxOut": l[2]} for c, l, _ in configs],
+        "constants": [{"conns": cc.UNIVERSE[c], "maxIn": l[0], "maxPerIp": l[1], "maxOut": l[2], "plans": cc.PLANSETS[pl]} for c, l, _, pl in configs],
         "exhaustive": True,
     }, ["schedules are forced at the granularity at which the harness can hold a goroutine (before the call, inside the "
         "handshake, after the return): beforeHandshakeCheck(+tryAddConnecting) and afterHandshakeCheck+savePeer are each one step; "
         "the finer interleavings are model-checked only",
         "remote addresses of distinct connections are distinct (TCP)",
+        "net.SplitHostPort / net.JoinHostPort are modelled by their contract (inverse of each other on the texts of the plan), "
+        "the address texts are those of harness net.Conn objects, not of kernel sockets",
         "data races on unlocked fields are not observable by schedule replay (no -race build)"])
